@@ -580,6 +580,25 @@ func (l *Lexer) SkipStreamEOL() error {
 // ReadBytes reads exactly n bytes from the underlying reader.
 // Used for reading binary stream data where tokenization is not appropriate.
 func (l *Lexer) ReadBytes(n int) ([]byte, error) {
+	if n < 0 {
+		return nil, fmt.Errorf("invalid byte count: %d", n)
+	}
+	// n comes from the file (/Length): do not allocate it up front, a lying
+	// length would exhaust memory before the short read is noticed.
+	const chunk = 1 << 20
+	if n > chunk {
+		var buf bytes.Buffer
+		copied, err := io.CopyN(&buf, l.reader, int64(n))
+		l.pos += copied
+		if err == io.EOF {
+			return buf.Bytes(), fmt.Errorf("unexpected EOF: expected %d bytes, got %d", n, copied)
+		}
+		if err != nil {
+			return buf.Bytes(), err
+		}
+		return buf.Bytes(), nil
+	}
+
 	data := make([]byte, n)
 	totalRead := 0
 
